@@ -199,6 +199,6 @@ TECH = "TLA+ pipeline/history model (spec/Distiller.tla) + TLC; hook-recorded ca
 TEXT = {
     "C01": dict(level="TLC checks termination (liveness under weak fairness), result well-formedness and phase order of the single-call machine for every root kind x option tuple; every tuple is then run on the real code (7 root kinds, all 16 log sets, both finders, skip, nil options, 13 page-URL classes incl. odd ones) plus byte-level inputs (truncation at tag boundaries, NULs, misnesting, nesting to depth 2000, tag soup). Each call is recorded through the hooks and must be a complete behaviour Call..Return of the machine; a panic, a hang (20 s watchdog) or an ill-formed result is a violation after reproduction in a fresh process.", ref="DESIGN.md 7 C01", note=NOTE + "; byte-level inputs come from the driver, not from TLC; inputs above 1 MB or deeper than 2000 are out of scope", technique=TECH),
     "C10": dict(level="Action property CallerUntouched of spec/Distiller.tla; on the real code every call of a history (same tree and same Options value through Apply / ApplyForReader / ApplyForURL over a loopback server, document / attached element / detached element roots) carries a deep snapshot of the whole containing tree (node identities, links, names, attributes, text) and of the Options and URL values before and after; TLC evaluates TreeUntouched / OptionsUntouched on every Return.", ref="DESIGN.md 7 C10", note=NOTE, technique=TECH),
-    "C11": dict(level="Histories of identical calls, of Apply vs ApplyForReader vs ApplyForFile on the same bytes, shuffled with other calls in one process; TLC keeps the first result digest per (entry, options) in the group memory of the trace spec and checks every later Return against it (RepeatedCallsAgree, EntryPointsAgree). Map-iteration order is re-drawn by the Go runtime on every call; the order-sensitive page-number detector has its own model (spec/PageNumber.tla, see C17/C16).", ref="DESIGN.md 7 C11", note=NOTE, technique=TECH),
+    "C11": dict(level="Histories of identical calls, of Apply vs ApplyForReader vs ApplyForFile on the same bytes, shuffled with other calls in one process and driven in forward and reverse order; TLC keeps the first result digest per (entry, options) in the group memory of the trace spec and checks every later Return against it (RepeatedCallsAgree, EntryPointsAgree). Second stage: spec/PageNumber.tla models the page-number finder with the candidate patterns of a group evaluated in ANY order (what ranging over a Go map does): TLC explores every order for every pager of the bound, reports the pagers whose answer depends on it (the defect config must produce the counterexample), and each enumerated pager is run 8 times on the real finder with its detector steps recorded by hooks and replayed on the model; TLC judges RepeatedCallsAgree on the set of real answers.", ref="DESIGN.md 7 C11", note=NOTE + "; spec/PageNumber.tla (transcribed from internal/pagination), harness/fam_pn.go maps URLs to the model's abstract URLs", technique=TECH + "; spec/PageNumber.tla explored by TLC over all evaluation orders, real runs validated against spec/trace/PNTrace.tla"),
     "C13": dict(level="OptionsOnlyWhatTheySay of spec/Distiller.tla (pagination phase iff not skipped and URL given; URL field mirrors the option); on the real code one document goes through the option tuples enumerated by TLC (16 log sets x algorithm x skip x url x nil); TLC checks on the recorded histories that the core digest never depends on log flags, algorithm or skip, that pagination is empty when skipped or without URL, that pagination for a given algorithm does not depend on log flags, and that Result.URL is the supplied URL.", ref="DESIGN.md 7 C13", note=NOTE, technique=TECH),
 }
